@@ -276,22 +276,26 @@ def gen_history(rng, cfg, pool, text, nops, weights=None, allow_uncrawled_pages=
             seen_targets = []
             for _ in range(rng.choice([1, 2, 3, 3, 5])):
                 # a page met as a target earlier in this batch comes back as a source
-                s = rng.choice(seen_targets) if seen_targets and rng.random() < 0.4 else pick()
+                returning = bool(seen_targets) and rng.random() < 0.4
+                s = rng.choice(seen_targets) if returning else pick()
                 if s in srcs:
                     continue
                 srcs.add(s)
                 ts = []
+                known_only = returning and rng.random() < 0.6  # a returning page that links to known pages only
                 for _ in range(rng.choice([0, 1, 2, 3, 5])):
                     r = rng.random()
-                    if r < 0.1:
+                    if known_only:
+                        ts.append(rng.choice(sorted(srcs) + seen_targets))
+                    elif r < 0.1:
                         ts.append(s)
                     elif r < 0.25 and ts:
                         ts.append(rng.choice(ts))
                     elif r < 0.4 and srcs:
                         ts.append(rng.choice(sorted(srcs)))
-                    elif r < 0.5 and seen_targets:
-                        ts.append(rng.choice(seen_targets) + rng.choice(PATHS))  # hooks right below an earlier target
                     elif r < 0.6 and seen_targets:
+                        ts.append(rng.choice(seen_targets) + rng.choice(PATHS))  # hooks right below an earlier target
+                    elif r < 0.7 and seen_targets:
                         ts.append(rng.choice(seen_targets))
                     else:
                         ts.append(pick())
